@@ -78,14 +78,24 @@ class _AsyncBridge:
             self.loop.close()
 
 
-def read_ids(ds, iface: str, split: str, *, take: int | None = None, **kw) -> list[int]:
+def read_ids(ds, iface: str, split: str, *, take: int | None = None, stall=None, **kw) -> list[int]:
+    """stall = (k, seconds): the consumer is busy for `seconds` after its k-th example (a training step, a
+    checkpoint) while every read-ahead thread sits idle - nothing may be lost because of that."""
     it = iterate(ds, iface, split, **kw)
     try:
         if take is not None:
             it2 = itertools.islice(it, take)
         else:
             it2 = it
-        return [ex_id(e) for e in it2]
+        if stall is None:
+            return [ex_id(e) for e in it2]
+        import time
+        got = []
+        for e in it2:
+            got.append(ex_id(e))
+            if len(got) == stall[0]:
+                time.sleep(stall[1])
+        return got
     finally:
         close = getattr(it, "close", None)
         if close is not None:
